@@ -969,4 +969,586 @@ theorem dictEnd_spec (v : VM) (above below : List Obj) (ps : List (Name × Obj))
   unfold bDictEnd; rw [h, toMark_some _ _ hm]
   simp [hlen, habove, fillDict_pairs, VM.alloc, okRes]
 
+/-! ## dictionaries: `dictInsert` / `dictLookup` -/
+
+theorem dictLookup_map_self (d : List (Name × Obj)) (k : Name) (x : Obj)
+    (h : d.any (fun p => p.1 == k) = true) :
+    dictLookup (d.map (fun p => if p.1 == k then (k, x) else p)) k = some x := by
+  induction d with
+  | nil => simp at h
+  | cons p d ih =>
+    unfold dictLookup
+    by_cases hp : p.1 = k
+    · simp [hp]
+    · have h' : d.any (fun p => p.1 == k) = true := by simpa [hp] using h
+      have := ih h'
+      unfold dictLookup at this
+      simpa [hp] using this
+
+theorem dictLookup_map_other (d : List (Name × Obj)) (k k' : Name) (x : Obj) (hk : k' ≠ k) :
+    dictLookup (d.map (fun p => if p.1 == k then (k, x) else p)) k' = dictLookup d k' := by
+  induction d with
+  | nil => rfl
+  | cons p d ih =>
+    unfold dictLookup at ih ⊢
+    by_cases hp : p.1 = k
+    · have : ¬ p.1 = k' := fun e => hk (e ▸ hp)
+      simp only [List.map_cons, hp, beq_self_eq_true, if_true, List.find?_cons]
+      have hkk : (k == k') = false := by simp [Ne.symm hk]
+      simp only [hkk]
+      exact ih
+    · have hpb : (p.1 == k) = false := by simp [hp]
+      simp only [List.map_cons, hpb, Bool.false_eq_true, if_false, List.find?_cons]
+      by_cases hpk : p.1 = k'
+      · simp [hpk]
+      · have hpk' : (p.1 == k') = false := by simp [hpk]
+        simp only [hpk']
+        exact ih
+
+theorem dictLookup_append_self (d : List (Name × Obj)) (k : Name) (x : Obj)
+    (h : d.any (fun p => p.1 == k) = false) : dictLookup (d ++ [(k, x)]) k = some x := by
+  induction d with
+  | nil => simp [dictLookup]
+  | cons p d ih =>
+    have hp : (p.1 == k) = false := by simp at h; simpa using h.1
+    have h' : d.any (fun p => p.1 == k) = false := by simp at h ⊢; exact h.2
+    have := ih h'
+    unfold dictLookup at this ⊢
+    simpa [List.find?_cons, hp] using this
+
+theorem dictLookup_append_other (d : List (Name × Obj)) (k k' : Name) (x : Obj) (hk : k' ≠ k) :
+    dictLookup (d ++ [(k, x)]) k' = dictLookup d k' := by
+  unfold dictLookup
+  have hkk : (k == k') = false := by simp [Ne.symm hk]
+  rw [List.find?_append]
+  cases List.find? (fun p => p.1 == k') d <;> simp [hkk]
+
+/-- what was stored under a key is what is found under it -/
+theorem dictLookup_insert_self (d : List (Name × Obj)) (k : Name) (x : Obj) :
+    dictLookup (dictInsert d k x) k = some x := by
+  unfold dictInsert
+  by_cases h : d.any (fun p => p.1 == k) = true
+  · rw [if_pos h]; exact dictLookup_map_self d k x h
+  · rw [if_neg h]; exact dictLookup_append_self d k x (Bool.eq_false_iff.2 h)
+
+/-- the other keys are not affected -/
+theorem dictLookup_insert_other (d : List (Name × Obj)) (k k' : Name) (x : Obj) (hk : k' ≠ k) :
+    dictLookup (dictInsert d k x) k' = dictLookup d k' := by
+  unfold dictInsert
+  split
+  · exact dictLookup_map_other d k k' x hk
+  · exact dictLookup_append_other d k k' x hk
+
+/-- the number of entries grows by one exactly when the key is new -/
+theorem dictInsert_length (d : List (Name × Obj)) (k : Name) (x : Obj) :
+    (dictInsert d k x).length = if (dictLookup d k).isSome then d.length else d.length + 1 := by
+  unfold dictInsert dictLookup
+  by_cases h : d.any (fun p => p.1 == k) = true
+  · rw [if_pos h]
+    have : (d.find? (fun p => p.1 == k)).isSome = true := by rw [List.find?_isSome]; simpa using h
+    cases hf : d.find? (fun p => p.1 == k) with
+    | none => rw [hf] at this; cases this
+    | some p => simp
+  · rw [if_neg h]
+    have : d.find? (fun p => p.1 == k) = none := by
+      rw [List.find?_eq_none]
+      intro p hp hpk
+      exact h (List.any_eq_true.2 ⟨p, hp, hpk⟩)
+    simp [this]
+
+/-! ### the heap view -/
+
+theorem getDict_setCell_self (v : VM) (r : Nat) (d : List (Name × Obj)) (hr : r < v.heap.size) :
+    (v.setCell r (.dict d)).getDict r = d := by
+  simp [VM.getDict, VM.setCell, Array.getElem?_setIfInBounds_self_of_lt hr]
+
+theorem getDict_setCell_other (v : VM) (r r' : Nat) (c : Cell) (hne : r' ≠ r) :
+    (v.setCell r c).getDict r' = v.getDict r' := by
+  simp [VM.getDict, VM.setCell, Array.getElem?_setIfInBounds_ne (Ne.symm hne)]
+
+theorem dictGet_dictPut_self (v : VM) (r : Nat) (k : Name) (x : Obj) (hr : r < v.heap.size) :
+    (v.dictPut r k x).dictGet r k = some x := by
+  unfold VM.dictPut VM.dictGet
+  rw [getDict_setCell_self _ _ _ hr]
+  exact dictLookup_insert_self _ _ _
+
+theorem dictGet_dictPut_other_key (v : VM) (r : Nat) (k k' : Name) (x : Obj) (hr : r < v.heap.size)
+    (hk : k' ≠ k) : (v.dictPut r k x).dictGet r k' = v.dictGet r k' := by
+  unfold VM.dictPut VM.dictGet
+  rw [getDict_setCell_self _ _ _ hr]
+  exact dictLookup_insert_other _ _ _ _ hk
+
+theorem dictGet_dictPut_other_ref (v : VM) (r r' : Nat) (k k' : Name) (x : Obj) (hne : r' ≠ r) :
+    (v.dictPut r k x).dictGet r' k' = v.dictGet r' k' := by
+  unfold VM.dictPut VM.dictGet
+  rw [getDict_setCell_other _ _ _ _ hne]
+
+/-! ## positive specifications of the dictionary operators -/
+
+/-- `def` stores into the dictionary on top of the dictionary stack -/
+theorem def_spec (v : VM) (x : Obj) (n : Name) (rest : List Obj) (d : Nat) (ds : List Nat)
+    (h : v.stack = x :: .name n :: rest) (hd : v.dictStack = d :: ds) :
+    bDef v = ({ (v.dictPut d n x) with stack := rest }, .ok) := by
+  unfold bDef
+  rw [h]
+  simp only [hd, okRes]
+
+theorem lookupName_top (v : VM) (n : Name) (x : Obj) (d : Nat) (ds : List Nat) (hd : v.dictStack = d :: ds)
+    (hx : v.dictGet d n = some x) : lookupName v n = some x := by
+  unfold lookupName
+  rw [hd]
+  simp [hx]
+
+/-- name lookup returns the value from the topmost dictionary that has the key -/
+theorem lookupName_spec (v : VM) (n : Name) (x : Obj) (pre post : List Nat) (d : Nat)
+    (hd : v.dictStack = pre ++ d :: post) (hpre : ∀ r ∈ pre, v.dictGet r n = none)
+    (hx : v.dictGet d n = some x) : lookupName v n = some x := by
+  unfold lookupName
+  rw [hd]
+  clear hd
+  induction pre with
+  | nil => simp [hx]
+  | cons p pre ih =>
+    have hp := hpre p List.mem_cons_self
+    simp only [List.cons_append, List.findSome?_cons, hp]
+    exact ih (fun r hr => hpre r (List.mem_cons_of_mem _ hr))
+
+theorem lookupName_none (v : VM) (n : Name) (h : ∀ r ∈ v.dictStack, v.dictGet r n = none) :
+    lookupName v n = none := by
+  unfold lookupName
+  rw [List.findSome?_eq_none_iff]
+  exact h
+
+/-- after `/n x def`, `n load` gives `x` -/
+theorem def_then_lookup (v : VM) (x : Obj) (n : Name) (rest : List Obj) (d : Nat) (ds : List Nat)
+    (h : v.stack = x :: .name n :: rest) (hd : v.dictStack = d :: ds) (hr : d < v.heap.size) :
+    lookupName (bDef v).1 n = some x := by
+  rw [def_spec v x n rest d ds h hd]
+  dsimp only
+  refine lookupName_top _ n x d ds ?_ ?_
+  · exact hd
+  · exact dictGet_dictPut_self v d n x hr
+
+theorem load_spec (v : VM) (n : Name) (x : Obj) (rest : List Obj) (h : v.stack = .name n :: rest)
+    (hx : lookupName v n = some x) : bLoad v = ({ v with stack := x :: rest }, .ok) := by
+  unfold bLoad
+  rw [h]
+  simp only [hx, VM.push, okRes]
+
+theorem known_spec (v : VM) (r : Nat) (n : Name) (rest : List Obj) (h : v.stack = .name n :: .dict r :: rest) :
+    bKnown v = ({ v with stack := .bool (dictLookup (v.getDict r) n).isSome :: rest }, .ok) := by
+  unfold bKnown; rw [h]; rfl
+
+theorem get_dict_spec (v : VM) (r : Nat) (n : Name) (x : Obj) (rest : List Obj)
+    (h : v.stack = .name n :: .dict r :: rest) (hx : dictLookup (v.getDict r) n = some x) :
+    bGet v = ({ v with stack := x :: rest }, .ok) := by
+  unfold bGet
+  rw [h]
+  simp only [VM.dictGet, hx, VM.push, okRes]
+
+theorem put_dict_spec (v : VM) (r : Nat) (n : Name) (x : Obj) (rest : List Obj)
+    (h : v.stack = x :: .name n :: .dict r :: rest) :
+    bPut v = (({ v with stack := rest }).dictPut r n x, .ok) := by
+  unfold bPut; rw [h]; rfl
+
+/-- `put` then `get` on a dictionary: the stored value comes back, and is seen through every
+reference to the same dictionary (dictionaries are shared, not copied) -/
+theorem put_dict_then_get (v : VM) (r : Nat) (n : Name) (x : Obj) (rest : List Obj)
+    (h : v.stack = x :: .name n :: .dict r :: rest) (hr : r < v.heap.size) :
+    (bPut v).1.dictGet r n = some x := by
+  rw [put_dict_spec v r n x rest h]
+  exact dictGet_dictPut_self _ r n x hr
+
+theorem begin_spec (v : VM) (r : Nat) (rest : List Obj) (h : v.stack = .dict r :: rest)
+    (hd : v.dictStack.length < 20) :
+    bBegin v = ({ v with stack := rest, dictStack := r :: v.dictStack, dictGhost := v.dictGhost.tail }, .ok) := by
+  unfold bBegin
+  rw [h]
+  have h1 : ¬ v.dictStack.length ≥ maxDictStackDepth := by unfold maxDictStackDepth; omega
+  simp only [h1, if_false, okRes]
+
+theorem end_spec (v : VM) (d : Nat) (ds : List Nat) (hd : v.dictStack = d :: ds) (hl : 2 ≤ ds.length) :
+    bEnd v = ({ v with dictStack := ds, dictGhost := d :: v.dictGhost }, .ok) := by
+  unfold bEnd
+  rw [hd]
+  have h1 : ¬ (d :: ds).length ≤ 2 := by simp only [List.length_cons]; omega
+  simp only [h1, if_false, okRes, List.tail_cons]
+  rfl
+
+theorem currentdict_spec (v : VM) (d : Nat) (ds : List Nat) (hd : v.dictStack = d :: ds) :
+    bCurrentdict v = ({ v with stack := .dict d :: v.stack }, .ok) := by
+  unfold bCurrentdict
+  conv => lhs; rw [hd]
+  rfl
+
+/-- `d begin … end` restores the dictionary stack -/
+theorem begin_end (v : VM) (r : Nat) (rest : List Obj) (h : v.stack = .dict r :: rest)
+    (h2 : 2 ≤ v.dictStack.length) (hd : v.dictStack.length < 20) :
+    (bEnd (bBegin v).1).1.dictStack = v.dictStack ∧ (bEnd (bBegin v).1).2 = .ok := by
+  rw [begin_spec v r rest h hd]
+  rw [end_spec _ r v.dictStack rfl h2]
+  exact ⟨rfl, rfl⟩
+
+/-- `where` returns the topmost dictionary on the dictionary stack that has the key -/
+theorem where_found (v : VM) (n : Name) (rest : List Obj) (pre post : List Nat) (d : Nat)
+    (h : v.stack = .name n :: rest)
+    (hd : v.dictStack = pre ++ d :: post) (hpre : ∀ r ∈ pre, v.dictGet r n = none)
+    (hx : (v.dictGet d n).isSome) :
+    bWhere v = ({ v with stack := .bool true :: .dict d :: rest }, .ok) := by
+  unfold bWhere
+  rw [h]
+  have : v.dictStack.find? (fun r => (v.dictGet r n).isSome) = some d := by
+    rw [hd]
+    clear hd
+    induction pre with
+    | nil => simp [hx]
+    | cons p pre ih =>
+      have hp := hpre p List.mem_cons_self
+      simp only [List.cons_append, List.find?_cons, hp, Option.isSome_none]
+      exact ih (fun r hr => hpre r (List.mem_cons_of_mem _ hr))
+  simp only [this, okRes]
+
+theorem where_not_found (v : VM) (n : Name) (rest : List Obj) (h : v.stack = .name n :: rest)
+    (hn : ∀ r ∈ v.dictStack, v.dictGet r n = none) :
+    bWhere v = ({ v with stack := .bool false :: rest }, .ok) := by
+  unfold bWhere
+  rw [h]
+  have : v.dictStack.find? (fun r => (v.dictGet r n).isSome) = none := by
+    rw [List.find?_eq_none]
+    intro r hr
+    simp [hn r hr]
+  simp only [this, okRes]
+
+theorem maxlength_spec (v : VM) (r : Nat) (rest : List Obj) (h : v.stack = .dict r :: rest) :
+    bMaxlength v = ({ v with stack := .int ((v.getDict r).length + 1) :: rest }, .ok) := by
+  unfold bMaxlength; rw [h]; rfl
+
+/-! ## `length` -/
+
+theorem length_arr (v : VM) (r o l : Nat) (rest : List Obj) (h : v.stack = .arr r o l :: rest) :
+    bLength v = ({ v with stack := .int l :: rest }, .ok) := by unfold bLength; rw [h]; rfl
+theorem length_proc (v : VM) (r o l : Nat) (rest : List Obj) (h : v.stack = .proc r o l :: rest) :
+    bLength v = ({ v with stack := .int l :: rest }, .ok) := by unfold bLength; rw [h]; rfl
+theorem length_str (v : VM) (r o l : Nat) (rest : List Obj) (h : v.stack = .str r o l :: rest) :
+    bLength v = ({ v with stack := .int l :: rest }, .ok) := by unfold bLength; rw [h]; rfl
+theorem length_dict (v : VM) (r : Nat) (rest : List Obj) (h : v.stack = .dict r :: rest) :
+    bLength v = ({ v with stack := .int (v.getDict r).length :: rest }, .ok) := by unfold bLength; rw [h]; rfl
+theorem length_name (v : VM) (n : Name) (rest : List Obj) (h : v.stack = .name n :: rest) :
+    bLength v = ({ v with stack := .int n.length :: rest }, .ok) := by unfold bLength; rw [h]; rfl
+
+/-! ## views, `writeAt`, `copy`, `putinterval` -/
+
+theorem writeAt_nil {α : Type} (a : Array α) (off : Nat) : writeAt a off [] = a := rfl
+theorem writeAt_cons {α : Type} (a : Array α) (off : Nat) (x : α) (xs : List α) :
+    writeAt a off (x :: xs) = writeAt (a.setIfInBounds off x) (off + 1) xs := rfl
+
+theorem writeAt_size {α : Type} (vals : List α) : ∀ (a : Array α) (off : Nat), (writeAt a off vals).size = a.size := by
+  induction vals with
+  | nil => intro a off; rfl
+  | cons x xs ih => intro a off; rw [writeAt_cons, ih]; simp
+
+/-- positions outside the written range keep their contents -/
+theorem writeAt_outside {α : Type} (vals : List α) :
+    ∀ (a : Array α) (off i : Nat), i < off ∨ off + vals.length ≤ i → (writeAt a off vals)[i]? = a[i]? := by
+  induction vals with
+  | nil => intro a off i _; rfl
+  | cons x xs ih =>
+    intro a off i hi
+    rw [writeAt_cons, ih _ _ _ (by simp only [List.length_cons] at hi; omega)]
+    exact Array.getElem?_setIfInBounds_ne (by simp only [List.length_cons] at hi; omega)
+
+/-- positions inside the written range hold the written values -/
+theorem writeAt_inside {α : Type} (vals : List α) :
+    ∀ (a : Array α) (off j : Nat), j < vals.length → off + j < a.size → (writeAt a off vals)[off + j]? = vals[j]? := by
+  induction vals with
+  | nil => intro a off j hj; simp at hj
+  | cons x xs ih =>
+    intro a off j hj hs
+    rw [writeAt_cons]
+    cases j with
+    | zero =>
+      show (writeAt (a.setIfInBounds off x) (off + 1) xs)[off]? = _
+      rw [writeAt_outside xs _ (off + 1) off (Or.inl (Nat.lt_succ_self off))]
+      simp only [List.getElem?_cons_zero]
+      exact Array.getElem?_setIfInBounds_self_of_lt hs
+    | succ j =>
+      have := ih (a.setIfInBounds off x) (off + 1) j (by simpa using hj) (by simp; omega)
+      rw [show off + (j + 1) = off + 1 + j by omega, this]
+      simp
+
+theorem view_getElem? {α : Type} (a : Array α) (o l i : Nat) :
+    ((a.extract o (o + l)).toList)[i]? = if i < l then a[o + i]? else none := by
+  rw [Array.toList_extract]
+  by_cases h : i < l
+  · simp only [h, if_true]
+    simp only [List.extract_eq_take_drop, Nat.add_sub_cancel_left]
+    rw [List.getElem?_take_of_lt h, List.getElem?_drop, Array.getElem?_toList]
+  · simp only [h, if_false]
+    simp only [List.extract_eq_take_drop, Nat.add_sub_cancel_left]
+    rw [List.getElem?_eq_none]
+    simp only [List.length_take]
+    omega
+
+theorem viewObjs_getElem? (v : VM) (r o l i : Nat) :
+    (v.viewObjs r o l)[i]? = if i < l then (v.getObjs r)[o + i]? else none := view_getElem? _ o l i
+theorem viewBytes_getElem? (v : VM) (r o l i : Nat) :
+    (v.viewBytes r o l)[i]? = if i < l then (v.getBytes r)[o + i]? else none := view_getElem? _ o l i
+
+theorem view_length {α : Type} (a : Array α) (o l : Nat) (h : o + l ≤ a.size) :
+    ((a.extract o (o + l)).toList).length = l := by
+  simp only [Array.length_toList, Array.size_extract]
+  omega
+
+/-- reading back the range just written gives the written values -/
+theorem view_writeAt {α : Type} (a : Array α) (off : Nat) (vals : List α) (h : off + vals.length ≤ a.size) :
+    (((writeAt a off vals).extract off (off + vals.length)).toList) = vals := by
+  apply List.ext_getElem?
+  intro i
+  rw [view_getElem?]
+  by_cases hi : i < vals.length
+  · simp only [hi, if_true]
+    exact writeAt_inside vals a off i hi (by omega)
+  · simp only [hi, if_false]
+    rw [List.getElem?_eq_none (by omega)]
+
+theorem getObjs_setCell_self (v : VM) (r : Nat) (a : Array Obj) (hr : r < v.heap.size) :
+    (v.setCell r (.objs a)).getObjs r = a := by
+  simp [VM.getObjs, VM.setCell, Array.getElem?_setIfInBounds_self_of_lt hr]
+theorem getBytes_setCell_self (v : VM) (r : Nat) (a : Array UInt8) (hr : r < v.heap.size) :
+    (v.setCell r (.bytes a)).getBytes r = a := by
+  simp [VM.getBytes, VM.setCell, Array.getElem?_setIfInBounds_self_of_lt hr]
+theorem getObjs_setCell_other (v : VM) (r r' : Nat) (c : Cell) (hne : r' ≠ r) :
+    (v.setCell r c).getObjs r' = v.getObjs r' := by
+  simp [VM.getObjs, VM.setCell, Array.getElem?_setIfInBounds_ne (Ne.symm hne)]
+theorem getBytes_setCell_other (v : VM) (r r' : Nat) (c : Cell) (hne : r' ≠ r) :
+    (v.setCell r c).getBytes r' = v.getBytes r' := by
+  simp [VM.getBytes, VM.setCell, Array.getElem?_setIfInBounds_ne (Ne.symm hne)]
+
+/-- a view of the range just written into a store holds the written values -/
+theorem viewObjs_after_write (v v' : VM) (r off : Nat) (vals : List Obj)
+    (hheap : v'.heap = v.heap.setIfInBounds r (.objs (writeAt (v.getObjs r) off vals)))
+    (hr : r < v.heap.size) (hin : off + vals.length ≤ (v.getObjs r).size) :
+    v'.viewObjs r off vals.length = vals := by
+  have hg : v'.getObjs r = writeAt (v.getObjs r) off vals := by
+    unfold VM.getObjs
+    rw [hheap, Array.getElem?_setIfInBounds_self_of_lt hr]
+    rfl
+  unfold VM.viewObjs
+  rw [hg]
+  exact view_writeAt _ off vals hin
+theorem viewBytes_after_write (v v' : VM) (r off : Nat) (vals : List UInt8)
+    (hheap : v'.heap = v.heap.setIfInBounds r (.bytes (writeAt (v.getBytes r) off vals)))
+    (hr : r < v.heap.size) (hin : off + vals.length ≤ (v.getBytes r).size) :
+    v'.viewBytes r off vals.length = vals := by
+  have hg : v'.getBytes r = writeAt (v.getBytes r) off vals := by
+    unfold VM.getBytes
+    rw [hheap, Array.getElem?_setIfInBounds_self_of_lt hr]
+    rfl
+  unfold VM.viewBytes
+  rw [hg]
+  exact view_writeAt _ off vals hin
+
+/-- `get` on an array: the element of the view -/
+theorem get_arr_spec (v : VM) (r o l i : Nat) (x : Obj) (rest : List Obj)
+    (h : v.stack = .int i :: .arr r o l :: rest) (hx : (v.viewObjs r o l)[i]? = some x) :
+    bGet v = ({ v with stack := x :: rest }, .ok) := by
+  unfold bGet
+  rw [h]
+  rw [viewObjs_getElem?] at hx
+  have hi : i < l := by
+    rcases Nat.lt_or_ge i l with h1 | h1
+    · exact h1
+    · rw [if_neg (by omega)] at hx; cases hx
+  rw [if_pos hi] at hx
+  have h1 : ¬ ((i : Int) < 0 ∨ (i : Int) ≥ l) := by omega
+  simp only [h1, if_false, Int.toNat_natCast, hx, VM.push, okRes]
+
+/-- `get` on a string: the byte of the view, as an integer -/
+theorem get_str_spec (v : VM) (r o l i : Nat) (b : UInt8) (rest : List Obj)
+    (h : v.stack = .int i :: .str r o l :: rest) (hx : (v.viewBytes r o l)[i]? = some b) :
+    bGet v = ({ v with stack := .int b.toNat :: rest }, .ok) := by
+  unfold bGet
+  rw [h]
+  rw [viewBytes_getElem?] at hx
+  have hi : i < l := by
+    rcases Nat.lt_or_ge i l with h1 | h1
+    · exact h1
+    · rw [if_neg (by omega)] at hx; cases hx
+  rw [if_pos hi] at hx
+  have h1 : ¬ ((i : Int) < 0 ∨ (i : Int) ≥ l) := by omega
+  simp only [h1, if_false, Int.toNat_natCast, hx, VM.push, okRes]
+
+/-- `copy` of an array into another: the result is the initial sub-view of the destination,
+sharing the destination's store -/
+theorem copy_arr_spec (v : VM) (r o l r2 o2 l2 : Nat) (rest : List Obj)
+    (h : v.stack = .arr r2 o2 l2 :: .arr r o l :: rest) (hl : l ≤ l2) :
+    bCopy v = ({ v with stack := .arr r2 o2 l :: rest,
+                        heap := v.heap.setIfInBounds r2 (.objs (writeAt (v.getObjs r2) o2 (v.viewObjs r o l))) }, .ok) := by
+  unfold bCopy
+  rw [h]
+  have h1 : ¬ l2 < l := by omega
+  simp only [h1, if_false, okRes, VM.push, VM.setCell]
+
+/-- … and that sub-view now holds the source's elements -/
+theorem copy_arr_contents (v : VM) (r o l r2 o2 l2 : Nat) (rest : List Obj)
+    (h : v.stack = .arr r2 o2 l2 :: .arr r o l :: rest) (hl : l ≤ l2)
+    (hr2 : r2 < v.heap.size) (hsrc : o + l ≤ (v.getObjs r).size) (hdst : o2 + l2 ≤ (v.getObjs r2).size) :
+    (bCopy v).1.viewObjs r2 o2 l = v.viewObjs r o l := by
+  rw [copy_arr_spec v r o l r2 o2 l2 rest h hl]
+  have hlen : (v.viewObjs r o l).length = l := view_length _ o l hsrc
+  have := fun v' hh => viewObjs_after_write v v' r2 o2 (v.viewObjs r o l) hh hr2 (by rw [hlen]; omega)
+  rw [hlen] at this
+  exact this _ rfl
+
+theorem copy_str_spec (v : VM) (r o l r2 o2 l2 : Nat) (rest : List Obj)
+    (h : v.stack = .str r2 o2 l2 :: .str r o l :: rest) (hl : l ≤ l2) :
+    bCopy v = ({ v with stack := .str r2 o2 l :: rest,
+                        heap := v.heap.setIfInBounds r2 (.bytes (writeAt (v.getBytes r2) o2 (v.viewBytes r o l))) }, .ok) := by
+  unfold bCopy
+  rw [h]
+  have h1 : ¬ l2 < l := by omega
+  simp only [h1, if_false, okRes, VM.push, VM.setCell]
+
+theorem copy_str_contents (v : VM) (r o l r2 o2 l2 : Nat) (rest : List Obj)
+    (h : v.stack = .str r2 o2 l2 :: .str r o l :: rest) (hl : l ≤ l2)
+    (hr2 : r2 < v.heap.size) (hsrc : o + l ≤ (v.getBytes r).size) (hdst : o2 + l2 ≤ (v.getBytes r2).size) :
+    (bCopy v).1.viewBytes r2 o2 l = v.viewBytes r o l := by
+  rw [copy_str_spec v r o l r2 o2 l2 rest h hl]
+  have hlen : (v.viewBytes r o l).length = l := view_length _ o l hsrc
+  have := fun v' hh => viewBytes_after_write v v' r2 o2 (v.viewBytes r o l) hh hr2 (by rw [hlen]; omega)
+  rw [hlen] at this
+  exact this _ rfl
+
+/-- `putinterval` writes through to the destination's store -/
+theorem putinterval_arr_spec (v : VM) (r o l r2 o2 l2 i : Nat) (rest : List Obj)
+    (h : v.stack = .arr r2 o2 l2 :: .int i :: .arr r o l :: rest) (hi : i + l2 ≤ l) :
+    bPutinterval v = ({ v with stack := rest,
+                               heap := v.heap.setIfInBounds r (.objs (writeAt (v.getObjs r) (o + i) (v.viewObjs r2 o2 l2))) }, .ok) := by
+  unfold bPutinterval
+  rw [h]
+  have h1 : ¬ (i : Int) < 0 := by omega
+  have h2 : ¬ (i : Int) > (l : Int) - l2 := by omega
+  simp only [h1, h2, if_false, okRes, VM.setCell, Int.toNat_natCast]
+
+/-- … so that the sub-view `[i, i + l2)` of the destination, and hence the corresponding part of
+every view of the same store, holds the source's elements -/
+theorem putinterval_arr_contents (v : VM) (r o l r2 o2 l2 i : Nat) (rest : List Obj)
+    (h : v.stack = .arr r2 o2 l2 :: .int i :: .arr r o l :: rest) (hi : i + l2 ≤ l)
+    (hr : r < v.heap.size) (hsrc : o2 + l2 ≤ (v.getObjs r2).size) (hdst : o + l ≤ (v.getObjs r).size) :
+    (bPutinterval v).1.viewObjs r (o + i) l2 = v.viewObjs r2 o2 l2 := by
+  rw [putinterval_arr_spec v r o l r2 o2 l2 i rest h hi]
+  have hlen : (v.viewObjs r2 o2 l2).length = l2 := view_length _ o2 l2 hsrc
+  have := fun v' hh => viewObjs_after_write v v' r (o + i) (v.viewObjs r2 o2 l2) hh hr (by rw [hlen]; omega)
+  rw [hlen] at this
+  exact this _ rfl
+
+theorem putinterval_str_spec (v : VM) (r o l r2 o2 l2 i : Nat) (rest : List Obj)
+    (h : v.stack = .str r2 o2 l2 :: .int i :: .str r o l :: rest) (hi : i + l2 ≤ l) :
+    bPutinterval v = ({ v with stack := rest,
+                               heap := v.heap.setIfInBounds r (.bytes (writeAt (v.getBytes r) (o + i) (v.viewBytes r2 o2 l2))) }, .ok) := by
+  unfold bPutinterval
+  rw [h]
+  have h1 : ¬ (i : Int) < 0 := by omega
+  have h2 : ¬ (i : Int) > (l : Int) - l2 := by omega
+  simp only [h1, h2, if_false, okRes, VM.setCell, Int.toNat_natCast]
+
+theorem putinterval_str_contents (v : VM) (r o l r2 o2 l2 i : Nat) (rest : List Obj)
+    (h : v.stack = .str r2 o2 l2 :: .int i :: .str r o l :: rest) (hi : i + l2 ≤ l)
+    (hr : r < v.heap.size) (hsrc : o2 + l2 ≤ (v.getBytes r2).size) (hdst : o + l ≤ (v.getBytes r).size) :
+    (bPutinterval v).1.viewBytes r (o + i) l2 = v.viewBytes r2 o2 l2 := by
+  rw [putinterval_str_spec v r o l r2 o2 l2 i rest h hi]
+  have hlen : (v.viewBytes r2 o2 l2).length = l2 := view_length _ o2 l2 hsrc
+  have := fun v' hh => viewBytes_after_write v v' r (o + i) (v.viewBytes r2 o2 l2) hh hr (by rw [hlen]; omega)
+  rw [hlen] at this
+  exact this _ rfl
+
+/-- the string version of `getinterval_view` -/
+theorem getinterval_str_view (v : VM) (r o n : Nat) (i c : Nat) (rest : List Obj)
+    (h : v.stack = .int c :: .int i :: .str r o n :: rest) (hi : i ≤ n) (hc : c ≤ n - i) :
+    bGetinterval v = ({ v with stack := .str r (o + i) c :: rest }, .ok) := by
+  unfold bGetinterval
+  rw [h]
+  have h1 : ¬ ((i : Int) < 0 ∨ (i : Int) > n) := by omega
+  have h2 : ¬ ((c : Int) < 0 ∨ (c : Int) > (n : Int) - i) := by omega
+  simp only [h1, h2, if_false, okRes, Int.toNat_natCast]
+
+/-! ## a few more positive cases -/
+
+/-- witnesses: `minint -1 mul` and `2^32 2^32 mul` are promoted to reals, `-3 5 mul` is exact -/
+example : bMul { newVM with stack := [.int (-1), .int minInt64] } =
+    ({ newVM with stack := [.real (fmul (realOfInt minInt64) (realOfInt (-1)))] }, .ok) := by
+  rw [mul_exact _ minInt64 (-1) [] (by decide) (by decide) rfl]; rfl
+example : bMul { newVM with stack := [.int 4294967296, .int 4294967296] } =
+    ({ newVM with stack := [.real (fmul (realOfInt 4294967296) (realOfInt 4294967296))] }, .ok) := by
+  rw [mul_exact _ 4294967296 4294967296 [] (by decide) (by decide) rfl]; rfl
+example : bMul { newVM with stack := [.int 5, .int (-3)] } = ({ newVM with stack := [.int (-15)] }, .ok) := by
+  rw [mul_exact _ (-3) 5 [] (by decide) (by decide) rfl]; rfl
+
+theorem and_int (v : VM) (x y : Int) (rest : List Obj) (h : v.stack = .int y :: .int x :: rest) :
+    bAnd v = ({ v with stack := .int (and64 x y) :: rest }, .ok) := by unfold bAnd; rw [h]; rfl
+theorem or_int (v : VM) (x y : Int) (rest : List Obj) (h : v.stack = .int y :: .int x :: rest) :
+    bOr v = ({ v with stack := .int (or64 x y) :: rest }, .ok) := by unfold bOr; rw [h]; rfl
+/-- `not` on an integer is the one's complement -/
+theorem not_int (v : VM) (x : Int) (rest : List Obj) (h : v.stack = .int x :: rest) :
+    bNot v = ({ v with stack := .int (-x - 1) :: rest }, .ok) := by unfold bNot; rw [h]; rfl
+theorem ne_int_exact (v : VM) (a b : Int) (rest : List Obj) (hst : v.stack = .int b :: .int a :: rest) :
+    bNe v = ({ v with stack := .bool (!(a == b)) :: rest }, .ok) := by
+  unfold bNe bEqNe
+  rw [hst]
+  simp [equalObjs, VM.push, okRes]
+/-- two dictionaries are `eq` exactly when they are the same object -/
+theorem eq_dict (v : VM) (a b : Nat) (rest : List Obj) (hst : v.stack = .dict b :: .dict a :: rest) :
+    bEq v = ({ v with stack := .bool (a == b) :: rest }, .ok) := by
+  unfold bEq bEqNe
+  rw [hst]
+  simp [equalObjs, VM.push, okRes]
+
+/-- `copy` on dictionaries inserts the source's entries into the destination, which is returned -/
+theorem copy_dict_spec (v : VM) (r r2 : Nat) (rest : List Obj) (h : v.stack = .dict r2 :: .dict r :: rest) :
+    bCopy v = ({ v with stack := .dict r2 :: rest,
+                        heap := v.heap.setIfInBounds r2 (.dict ((v.getDict r).foldl
+                          (fun acc kv => dictInsert acc kv.1 kv.2) (v.getDict r2))) }, .ok) := by
+  unfold bCopy; rw [h]; rfl
+
+/-- `put` into a string stores the low byte at the view's position in the shared store -/
+theorem put_str_spec (v : VM) (r o l i c : Nat) (rest : List Obj)
+    (h : v.stack = .int c :: .int i :: .str r o l :: rest) (hi : i < l) (hc : c ≤ 255) :
+    bPut v = ({ v with stack := rest,
+                       heap := v.heap.setIfInBounds r (.bytes ((v.getBytes r).setIfInBounds (o + i) (UInt8.ofNat c))) }, .ok) := by
+  unfold bPut
+  rw [h]
+  have h1 : ¬ ((i : Int) < 0 ∨ (i : Int) ≥ l) := by omega
+  have h2 : ¬ ((c : Int) < 0 ∨ (c : Int) > 255) := by omega
+  simp only [h1, h2, if_false, okRes, VM.setCell, Int.toNat_natCast]
+
+/-- `put` into an array view -/
+theorem put_arr_spec (v : VM) (r o l i : Nat) (x : Obj) (rest : List Obj)
+    (h : v.stack = x :: .int i :: .arr r o l :: rest) (hi : i < l) :
+    bPut v = ({ v with stack := rest,
+                       heap := v.heap.setIfInBounds r (.objs ((v.getObjs r).setIfInBounds (o + i) x)) }, .ok) := by
+  unfold bPut
+  rw [h]
+  have h1 : ¬ ((i : Int) < 0 ∨ (i : Int) ≥ l) := by omega
+  simp only [h1, if_false, okRes, VM.setCell, Int.toNat_natCast]
+
+/-- the category entry exists but is not a dictionary -/
+theorem defineresource_undefined_nondict (v : VM) (inst catv : Obj) (c k : Name) (rest : List Obj)
+    (h : v.stack = .name c :: inst :: .name k :: rest)
+    (hc : dictLookup (v.getDict v.roots.resources) c = some catv) (hnd : ∀ d, catv ≠ .dict d) :
+    (bDefineresource v).2 = .err (.ps "undefined") := by
+  unfold bDefineresource
+  rw [h]
+  simp only [VM.dictGet, hc]
+  cases catv <;> first | rfl | exact absurd rfl (hnd _)
+
+#print axioms mul_exact
+#print axioms roll_typecheck_amount
+#print axioms get_rangecheck
+#print axioms dictLookup_insert_other
+#print axioms dictEnd_spec
+#print axioms copy_arr_contents
+#print axioms putinterval_arr_contents
+#print axioms where_found
+#print axioms type_spec
+
 end PsVerif.Props.C02
